@@ -2,7 +2,7 @@
    lines as `extract/gids/oracle`.
 
    Link line (tools/props/c17.py): gids.c hash.c xgetgr.c xgetpw.c from /repo, this file, and
-     -Wl,--wrap=getgrent_r,--wrap=setgrent,--wrap=endgrent,--wrap=getpwnam_r,--wrap=stat,--wrap=time
+     -Wl,--wrap=getgrent_r,--wrap=setgrent,--wrap=endgrent,--wrap=getpwnam_r,--wrap=stat,--wrap=lstat,--wrap=time
    The wrapped NSS calls serve the databases of the case line (laid out inside the caller's
    buffer at exactly entry_need bytes, ERANGE until the buffer is big enough); stat("/etc/group")
    and time() are virtual; timer_set_relative/timer_cancel are stubs that record the callback so
@@ -159,6 +159,13 @@ int __wrap_stat (const char *path, struct stat *st) {
     if (f_stat_fail) { errno = ENOENT; return -1; }
     memset (st, 0, sizeof *st); st->st_mtime = f_mtime; st->st_mode = S_IFREG | 0644;
     return 0;
+}
+
+/* the group file is a regular file here: lstat and stat agree (the symlink case is in gids_timer_harness.c) */
+int __real_lstat (const char *path, struct stat *st);
+int __wrap_lstat (const char *path, struct stat *st) {
+    if (strcmp (path, GIDS_GROUP_FILE)) return __real_lstat (path, st);
+    return __wrap_stat (path, st);
 }
 
 time_t __wrap_time (time_t *t) { if (t) *t = f_now; return f_now; }
